@@ -4,7 +4,7 @@ from txcommon import *
 class C12(TxCheck):
     ID = "C12"
     MODE = "c12"
-    LEVEL = "exploration"   # until the per-event preservation lemmas are all closed (coq/Tx/PROOFS.md)
+    LEVEL = "proof"
     N_QUICK = 100
     N_THOROUGH = 4000
     KINDS = ["balance_differs_from_ledger", "spendable_set_differs_from_ledger", "lease_list_differs_from_ledger", "store_error"]
